@@ -216,9 +216,9 @@ def run(prog: Program, ctx: Ctx) -> None:  # noqa: PLR0912,PLR0915
     doc["docstring"] = {"value": "Module doc.", "lineno": 1, "endlineno": 1}
     doc["members"]["Meta"]["docstring"] = {"value": "", "lineno": 2, "endlineno": 2}
     doc["members"]["register"]["docstring"] = {"value": "", "lineno": 2, "endlineno": 3}
-    doc["members"]["top"]["docstring"] = {"value": "Doc of top.", "lineno": 2, "endlineno": 2}
+    doc["members"]["top"]["docstring"] = {"value": " foo\nbar", "lineno": 2, "endlineno": 5}  # what cleaning leaves of `"""\n       foo\n      bar\n    """`
     doc["members"]["Model"]["members"]["x"]["docstring"] = {"value": "", "lineno": 2, "endlineno": 2}
-    written_docs = {"shop": "Module doc.", "shop.Meta": "", "shop.register": "", "shop.top": "Doc of top.", "shop.Model": None, "shop.Model.x": "", "shop.Model.Meta": None}
+    written_docs = {"shop": "Module doc.", "shop.Meta": "", "shop.register": "", "shop.top": " foo\nbar", "shop.Model": None, "shop.Model.x": "", "shop.Model.Meta": None}
     root = None
     try:
         root = json.loads(json.dumps(doc), object_hook=lambda d: it.call(jd, d))
